@@ -320,6 +320,7 @@ def build_select(c):
     cols, expected, explicit = [], [], set()
     seen = set()
     cast_seen, n_excluded_casts = set(), 0
+    rep_info, label_groups = [], {}
     for ii, it in enumerate(c["items"]):
         kind = it[0]
         if kind in ("col", "col_anon", "col_lbl", "expr", "expr_lbl"):
@@ -350,6 +351,30 @@ def build_select(c):
                 explicit.add(nm)
                 cols.append((colobj + (it[3] % 50)).label(nm))
                 expected.append(val + it[3] % 50)
+        elif kind == "rep":
+            # ["rep", form, fi, ci, count, mode]: ONE element object (column / CAST / .label(None)) repeated 2-5 times, optionally
+            # led by and/or interleaved with the same-named column of other FROM objects
+            from sqlalchemy import cast
+
+            form, fi, count, mode = it[1] % 3, it[2] % len(froms), 2 + it[4] % 4, it[5] % 4
+            names = list(fvals[fi])
+            cn = names[it[3] % len(names)]
+            base = froms[fi].c[cn]
+            elem = base if form == 0 else (cast(base, Integer) if form == 1 else base.label(None))
+            others = [(fj, froms[fj].c[cn]) for fj in range(len(froms)) if fj != fi and cn in fvals[fj]]
+            rep_info.append({"form": ["col", "cast", "anon"][form], "count": count, "lead": bool(mode & 1 and others), "interleaved": bool(mode & 2 and others)})
+            if mode & 1 and others:
+                cols.append(others[0][1])
+                expected.append(fvals[others[0][0]][cn])
+            for r in range(count):
+                cols.append(elem)
+                expected.append(fvals[fi][cn])
+                if form == 2:
+                    label_groups[len(cols) - 1] = id(elem)
+                if mode & 2 and others and r < count - 1:
+                    fj, oc = others[r % len(others)]
+                    cols.append(oc)
+                    expected.append(fvals[fj][cn])
         elif kind == "cast":
             # one CAST element repeated it[3] times (1-2 generated; 3 only in the pinned finding)
             from sqlalchemy import cast
@@ -391,6 +416,7 @@ def build_select(c):
         if pos == "select_first":
             cols.insert(0, bp.label("NBsel"))
             expected.insert(0, V)
+            label_groups = {k + 1: v for k, v in label_groups.items()}
             explicit.add("NBsel")
         elif pos == "select_last":
             cols.append(bp.label("NBsel"))
@@ -418,11 +444,15 @@ def build_select(c):
         stmt = stmt.where(nb_crit)
     if c.get("style") == "tq":
         stmt = stmt.set_label_style(LABEL_STYLE_TABLENAME_PLUS_COL)
+    elif c.get("style") == "none":
+        from sqlalchemy import LABEL_STYLE_NONE
+
+        stmt = stmt.set_label_style(LABEL_STYLE_NONE)
     real_names = set()
     for t in tables:
         real_names.add(t.name)
         real_names.update(cn.name for cn in t.columns)
-    return md, tables, tvals, stmt, expected, {"explicit": explicit, "real": real_names, "nwhere": nwhere, "excluded_casts": n_excluded_casts}
+    return md, tables, tvals, stmt, expected, {"explicit": explicit, "real": real_names, "nwhere": nwhere, "excluded_casts": n_excluded_casts, "rep": rep_info, "label_groups": label_groups}
 
 
 def render_select(c, dialect):
